@@ -64,6 +64,12 @@ def c08():
     add("C08", "c08_rowsmut_viewmut_c1_3_d1_poke", "c08::rowsmut_viewmut(4, 4, 1, 3, 1, 2)", 6, "quick", also=["C04"])
     add("C08", "c08_rowsmut_owned_2x3_d1_poke", "c08::rowsmut_owned(2, 3, 1, 2)", 6, "quick")
     add("C08", "c08_rowsmut_viewmut_c1_3_d1x_poke", "c08::rowsmut_viewmut(4, 4, 1, 3, 1, 31)", 6, "thorough", also=["C04"])
+    # tall parents (2 wide, 8 high): more rows than any unrolled fast path is likely to special-case
+    for (sc, ec) in [(0, 1), (0, 2), (1, 2)]:
+        q = "quick" if (sc, ec) == (0, 1) else "thorough"
+        add("C08", f"c08_rows_view_tall_c{sc}_{ec}_d2", f"c08::rows_view(2, 8, {sc}, {ec}, 2, 0)", 6, q)
+        add("C08", f"c08_rowsmut_viewmut_tall_c{sc}_{ec}_d2", f"c08::rowsmut_viewmut(2, 8, {sc}, {ec}, 2, 0)", 6, q)
+        add("C08", f"c08_rows_view_tall_c{sc}_{ec}_d1x", f"c08::rows_view(2, 8, {sc}, {ec}, 1, 29)", 11, "thorough")
     for (c, r) in [(0, 0), (1, 1), (1, 3), (3, 1), (2, 3), (3, 3)]:
         q = "quick" if (c, r) in [(0, 0), (1, 3), (2, 3)] else "thorough"
         add("C08", f"c08_rows_owned_{c}x{r}_d3", f"c08::rows_owned({c}, {r}, 3, 0)", 6, q)
@@ -79,6 +85,9 @@ c08()
 # ---------------------------------------------------------------------------------------
 # C09 col / col_mut : window fully symbolic (the column stride is the concrete parent width)
 def c09():
+    add("C09", "c09_col_view_2x8_d2", "c09::col_view(2, 8, 2, 0)", 6, "quick")
+    add("C09", "c09_colmut_viewmut_2x8_d2", "c09::colmut_viewmut(2, 8, 2, 0)", 6, "quick")
+    add("C09", "c09_col_view_5x3_d2", "c09::col_view(5, 3, 2, 0)", 6, "thorough")
     for (pc, pr) in [(4, 4), (1, 4), (3, 3)]:
         q = "quick" if (pc, pr) in [(4, 4), (1, 4)] else "thorough"
         p = f"{pc}x{pr}"
@@ -139,6 +148,13 @@ def c10():
             add("C10", f"c10_cells_view3_{w}_p0_{xn}", f"c10::cells_view(4, 3, {sc}, {ec}, 0, 1, {mode}, 0)", (ec - sc) * 3 + 3, "thorough")
     add("C10", "c10_cellsmut_viewmut_c1_3_p0_d1_poke", "c10::cells_viewmut(4, 3, 1, 3, 0, 1, 2, 0)", 6, "quick", also=["C04"])
     add("C10", "c10_cellsmut_owned_2x2_p3_d1_poke", "c10::cells_owned(2, 2, 3, 1, 2, 2)", 6, "quick")
+    # wide rows (8 columns): beyond small-width special cases
+    add("C10", "c10_cells_owned_8x1_p1_d1", "c10::cells_owned(8, 1, 1, 1, 0, 0)", 11, "quick")
+    add("C10", "c10_cells_owned_8x2_p3_d1", "c10::cells_owned(8, 2, 3, 1, 0, 0)", 11, "quick")
+    add("C10", "c10_cells_owned_8x2_p1_d2", "c10::cells_owned(8, 2, 1, 2, 0, 0)", 11, "quick")
+    add("C10", "c10_cellsmut_owned_8x2_p1_d1", "c10::cells_owned(8, 2, 1, 1, 0, 2)", 11, "thorough")
+    add("C10", "c10_cells_owned_8x2_p3_d2", "c10::cells_owned(8, 2, 3, 2, 0, 0)", 11, "thorough")
+    add("C10", "c10_cells_owned_5x3_p3_d1", "c10::cells_owned(5, 3, 3, 1, 0, 0)", 6, "thorough")
     # IntoIterator forms
     add("C10", "c10_intoiter_ref_view", "c10::cells_view(4, 3, 1, 3, 1, 1, 0, 1)", 6, "quick")
     add("C10", "c10_intoiter_mut_viewmut", "c10::cells_viewmut(4, 3, 1, 3, 2, 1, 0, 1)", 6, "quick")
@@ -191,8 +207,11 @@ c13()
 def c02():
     add("C02", "c02_inrange_view_4x4", "c02::inrange_view(4, 4)", 4)
     add("C02", "c02_inrange_viewmut_4x4", "c02::inrange_viewmut(4, 4)", 4, also=["C04"])
-    add("C02", "c02_inrange_view_3x5", "c02::inrange_view(3, 5)", 4, "thorough")
-    add("C02", "c02_inrange_viewmut_5x3", "c02::inrange_viewmut(5, 3)", 4, "thorough")
+    add("C02", "c02_inrange_view_3x5", "c02::inrange_view(3, 5)", 4, "quick")
+    add("C02", "c02_inrange_view_5x3", "c02::inrange_view(5, 3)", 4, "quick")
+    add("C02", "c02_inrange_view_7x2", "c02::inrange_view(7, 2)", 4, "thorough")
+    add("C02", "c02_inrange_viewmut_2x8", "c02::inrange_viewmut(2, 8)", 4, "thorough")
+    add("C02", "c02_inrange_viewmut_5x3", "c02::inrange_viewmut(5, 3)", 4, "quick", also=["C04"])
     add("C02", "c02_inrange_view_1x4", "c02::inrange_view(1, 4)", 4, "thorough")
     for (c, r) in [(1, 1), (1, 3), (3, 1), (2, 3), (3, 2), (3, 3), (4, 4), (2, 2)]:
         q = "quick" if (c, r) in [(1, 1), (2, 3), (3, 2), (3, 3)] else "thorough"
@@ -263,6 +282,12 @@ def c06():
                 add("C06", f"c06_{nm}_into_empty_len{ln}_s{start}", f"c06::insert_into_empty({mode}, {ln}, {start})", 8, "quick" if quick else "thorough", also=["C01", "C05"])
     for (c, r) in [(2, 2), (1, 1), (3, 2)]:
         for mode in (0, 2):
+            add("C06", f"c06_{MODES[mode]}_unit_{c}x{r}", f"c06::insert_unit({mode}, {c}, {r})", c * r + 6, "quick" if (c, r) == (2, 2) else "thorough")
+    for (c, r) in [(2, 5), (5, 2), (2, 6)]:
+        for mode in (0, 2):
+            add("C06", f"c06_{MODES[mode]}_tok_{c}x{r}_x", f"c06::insert_tok({mode}, {c}, {r}, false)", c * r + max(c, r) + 3, "quick" if (c, r, mode) in [(2, 5, 2), (5, 2, 0)] else "thorough", also=["C05"])
+    for (c, r) in [(2, 2), (1, 1), (3, 2)]:
+        for mode in (0, 2):
             quick = (c, r) == (2, 2)
             add("C06", f"c06_{MODES[mode]}_zst_{c}x{r}", f"c06::insert_zst({mode}, {c}, {r})", c * r + 6, "quick" if quick else "thorough", also=["C05"])
     for (c, r) in [(2, 3), (1, 1), (3, 3)]:
@@ -291,6 +316,19 @@ def c07():
         for is_row in (True, False):
             quick = (c, r) in [(2, 3), (1, 1)]
             add("C07", f"c07_remove_{'row' if is_row else 'col'}_u8_{c}x{r}", f"c07::remove_u8({b(is_row)}, {c}, {r})", 6, "quick" if quick else "thorough", also=["C01"])
+    # taller / wider shapes (beyond what an unrolled-by-4 fast path would special-case): Copy elements with
+    # symbolic contents in the quick tier (cheap), the ledger version in the thorough tier
+    for (c, r) in [(2, 5), (2, 6), (1, 8), (3, 5), (5, 2), (6, 2), (2, 7), (2, 8)]:
+        for is_row in (True, False):
+            q = "quick" if (c, r) in [(2, 5), (5, 2), (2, 8)] else "thorough"
+            add("C07", f"c07_remove_{'row' if is_row else 'col'}_u8_{c}x{r}", f"c07::remove_u8({b(is_row)}, {c}, {r})", max(c, r) + 3, q)
+        for mode in (0, 2):
+            if c * r <= 12:
+                add("C07", f"c07_{RMODES[mode]}_tok_{c}x{r}", f"c07::remove_tok({mode}, {c}, {r}, false, false, 0)", c * r + max(c, r) + 3, "thorough", also=["C05"])
+    for (c, r) in [(1, 1), (2, 2), (1, 3), (3, 1)]:
+        for is_row in (True, False):
+            add("C07", f"c07_remove_{'row' if is_row else 'col'}_unit_{c}x{r}", f"c07::remove_unit({b(is_row)}, {c}, {r})", c * r + 4,
+                "quick" if (c, r) in [(1, 1), (2, 2)] else "thorough", also=["C01"] if (c, r) == (1, 1) else [])
     add("C07", "c07_pop_empty", "c07::pop_empty()", 4, also=["C01"])
     for (c, r) in [(2, 3), (1, 1), (0, 0)]:
         for is_row in (True, False):
@@ -613,7 +651,7 @@ engb()
 # representative per operation (the full set runs in the thorough tier and in the owners' own quick tiers)
 C01_QUICK = re.compile(
     r"c01_|c06_(insert_row|insert_col)_tok_2x3_|c06_push_(row|col)_into_empty_len1|c06_insert_(row|col)_into_empty_len[02]_s0|c06_insert_row_rejected_(idx|long)_2x3|c06_insert_col_rejected_(idx|short)_2x3|"
-    r"c07_remove_(row|col)_tok_(2x3|1x1)|c07_pop_empty|c07_remove_(row|col)_rejected_2x3|c13_(swap|swap_rows|swap_cols|fill|indexmut)_owned_2x3|c13_swap_rows_rejected_owned_2x3|"
+    r"c07_remove_(row|col)_tok_(2x3|1x1)$|c07_pop_empty|c07_remove_(row|col)_rejected_2x3|c13_(swap|swap_rows|swap_cols|fill|indexmut)_owned_2x3|c13_swap_rows_rejected_owned_2x3|"
     r"c05_(clear|fill|overwrite)_2x2|c14_copy_from_(slice|owned)_owned_2x3|c15_translate_owned_3x3_mr1|c16_sort_by_row_owned_3x2_l1|c17_sort_by_col_owned_2x3_l1|c20_rejected_(new|init|from_vec|from_box)|"
     r"c20_contents_(new|init|from_vec|from_box)_2x3|c20_contents_from_vec_0x0")
 
